@@ -60,7 +60,9 @@ fn fresh_ed25519() -> (Vec<u8>, Vec<u8>) {
   (sk.to_bytes().to_vec(), pk.to_bytes().to_vec())
 }
 
-fn jwk_of_class(class: &str) -> Jwk {
+/// Concrete realisations of a model JWK class: every model value stands for several real values and a refused class must
+/// be refused in EVERY realisation.
+fn jwk_variants(class: &str) -> Vec<Jwk> {
   let (sk, pk) = fresh_ed25519();
   let okp = |crv: &str, with_d: bool| {
     let mut p = JwkParamsOkp::new();
@@ -71,40 +73,42 @@ fn jwk_of_class(class: &str) -> Jwk {
     }
     Jwk::from_params(p)
   };
+  let with_alg = |mut j: Jwk, a: &str| {
+    j.set_alg(a);
+    j
+  };
   match class {
-    "private_alg" => {
-      let mut j = okp("Ed25519", true);
-      j.set_alg("EdDSA");
-      j
-    }
-    "public_only" => {
-      let mut j = okp("Ed25519", false);
-      j.set_alg("EdDSA");
-      j
-    }
-    "no_alg" => okp("Ed25519", true),
-    "wrong_alg" => {
-      let mut j = okp("Ed25519", true);
-      j.set_alg("ES256");
-      j
-    }
-    "wrong_crv" => {
-      let mut j = okp("X25519", true);
-      j.set_alg("EdDSA");
-      j
-    }
+    "private_alg" => vec![with_alg(okp("Ed25519", true), "EdDSA")],
+    "public_only" => vec![with_alg(okp("Ed25519", false), "EdDSA")],
+    "no_alg" => vec![okp("Ed25519", true)],
+    "wrong_alg" => ["ES256", "ES256K", "HS256", "RS256", "none", "ES384"]
+      .iter()
+      .map(|a| with_alg(okp("Ed25519", true), a))
+      .collect(),
+    "unknown_alg" => ["Ed25519", "eddsa", "EDDSA", "EdDSA ", " EdDSA", "", "EdDSA\0", "BLS12381G2", "x"]
+      .iter()
+      .map(|a| with_alg(okp("Ed25519", true), a))
+      .collect(),
+    "wrong_crv" => ["X25519", "Ed448", "ed25519", "", "P-256"]
+      .iter()
+      .map(|c| with_alg(okp(c, true), "EdDSA"))
+      .collect(),
     "wrong_kty" => {
       let mut p = JwkParamsEc::new();
       p.crv = "P-256".into();
       p.x = encode_b64([1u8; 32]);
       p.y = encode_b64([2u8; 32]);
       p.d = Some(encode_b64([3u8; 32]));
-      let mut j = Jwk::from_params(p);
-      j.set_alg("EdDSA");
-      j
+      let mut k = identity_verification::jwk::JwkParamsOct::new();
+      k.k = encode_b64(&sk);
+      vec![with_alg(Jwk::from_params(p), "EdDSA"), with_alg(Jwk::from_params(k), "EdDSA")]
     }
     o => tool_error(&format!("bad jwk class {o}")),
   }
+}
+
+fn jwk_of_class(class: &str) -> Jwk {
+  jwk_variants(class).remove(0)
 }
 
 impl Live {
@@ -172,18 +176,28 @@ impl Live {
         }
       },
       "insert" => {
-        let jwk = jwk_of_class(s(&op["jwk"]));
-        match block_on(self.store.insert(jwk.clone())) {
-          Err(_) => Ok(json!({"ok": false})),
-          Ok(id) => {
-            if self.slots.iter().any(|sl| sl.id == id) {
-              return Err("insert returned a key id that was handed out before".into());
+        let variants = jwk_variants(s(&op["jwk"]));
+        let many = variants.len() > 1;
+        let mut outcome = json!({"ok": false});
+        for jwk in variants {
+          match block_on(self.store.insert(jwk.clone())) {
+            Err(_) => {}
+            Ok(id) => {
+              if self.slots.iter().any(|sl| sl.id == id) {
+                return Err("insert returned a key id that was handed out before".into());
+              }
+              let public = jwk.to_public().ok_or("no public part")?;
+              self.slots.push(Slot { id, public });
+              outcome = json!({"ok": true, "slot": self.slots.len()});
+              if many {
+                outcome["accepted_alg"] = json!(jwk.alg());
+                outcome["accepted_jwk_public"] = serde_json::to_value(jwk.to_public()).unwrap_or_default();
+              }
+              break;
             }
-            let public = jwk.to_public().ok_or("no public part")?;
-            self.slots.push(Slot { id, public });
-            Ok(json!({"ok": true, "slot": self.slots.len()}))
           }
         }
+        Ok(outcome)
       }
       "sign" => {
         let slot = i(&op["slot"]);
@@ -206,6 +220,29 @@ impl Live {
             j
           }
           "wrong_kty" => jwk_of_class("wrong_kty").to_public().unwrap(),
+          c @ ("wrong_alg" | "unknown_alg" | "wrong_crv") => {
+            // the key's own public JWK with only the alg / crv member replaced; every realisation must be refused
+            let base = own.clone().unwrap_or_else(|| jwk_of_class("public_only"));
+            let data = b"signing input of the harness";
+            for v in jwk_variants(c) {
+              let mut j = base.clone();
+              if c == "wrong_crv" {
+                let mut p = j.try_okp_params().map_err(|e| e.to_string())?.clone();
+                p.crv = v.try_okp_params().map_err(|e| e.to_string())?.crv.clone();
+                let alg = j.alg().map(|a| a.to_string());
+                j = Jwk::from_params(p);
+                if let Some(a) = alg {
+                  j.set_alg(a);
+                }
+              } else {
+                j.set_alg(v.alg().unwrap_or_default().to_string());
+              }
+              if block_on(self.store.sign(&id, data, &j)).is_ok() {
+                return Ok(json!({"ok": true, "accepted_public_jwk": serde_json::to_value(&j).unwrap_or_default()}));
+              }
+            }
+            return Ok(json!({"ok": false}));
+          }
           o => tool_error(&format!("bad pub class {o}")),
         };
         let data = b"signing input of the harness";
@@ -326,12 +363,12 @@ pub fn record_seq(seed: u64, n: u64, out: &mut TraceOut) {
           json!({"name": "generate", "kt": kt, "alg": alg})
         }
         14..=24 => {
-          let class = ["private_alg", "private_alg", "public_only", "no_alg", "wrong_alg", "wrong_kty", "wrong_crv"][r.gen_range(0..7)];
+          let class = ["private_alg", "private_alg", "public_only", "no_alg", "wrong_alg", "unknown_alg", "wrong_kty", "wrong_crv"][r.gen_range(0..8)];
           json!({"name": "insert", "jwk": class})
         }
         25..=49 => {
           let live_other = l.slots.iter().enumerate().any(|(k, sl)| (k as i64 + 1) != slot && block_on(l.store.exists(&sl.id)).unwrap_or(false));
-          let pubs: &[&str] = if live_other { &["own", "other", "no_alg", "wrong_kty"] } else { &["own", "no_alg", "wrong_kty"] };
+          let pubs: &[&str] = if live_other { &["own", "other", "no_alg", "wrong_alg", "unknown_alg", "wrong_crv", "wrong_kty"] } else { &["own", "no_alg", "wrong_alg", "unknown_alg", "wrong_crv", "wrong_kty"] };
           json!({"name": "sign", "slot": slot, "pub": pubs[r.gen_range(0..pubs.len())]})
         }
         50..=61 => json!({"name": "delete", "slot": slot}),
